@@ -22,15 +22,22 @@ import (
 	"time"
 )
 
-func c05Run(src string, noReg bool) string {
+func c05Run(src string, noReg bool, deadline time.Duration) string {
 	// every generated program terminates within milliseconds; the deadline only cuts runaway loops of a broken tree
-	o := Options{All: true, ShowEval: true, NoColor: true, Compact: true, NoReg: noReg, AutoLoad: false, AutoSave: false, MaxDuration: 3 * time.Second}
+	o := Options{All: true, ShowEval: true, NoColor: true, Compact: true, NoReg: noReg, AutoLoad: false, AutoSave: false, MaxDuration: deadline}
 	res, errs, _ := EvalStringWithOption(context.Background(), o, src)
 	all := res + "\n--errs--\n" + strings.Join(errs, "\n")
 	if strings.Contains(all, "deadline exceeded") {
-		return "TIMEOUT (3s)"
+		return "TIMEOUT"
 	}
 	return all
+}
+
+func c05Cut(s string) string {
+	if len(s) > 400 {
+		return s[:200] + " ... " + s[len(s)-200:]
+	}
+	return s
 }
 
 type c05gen struct {
@@ -74,6 +81,9 @@ func (g *c05gen) intExpr(names []string, depth int) string {
 func (g *c05gen) loop(ints []string, depth int, inFunc bool, acc string) string {
 	v := g.fresh("i")
 	lo, hi := g.r.Intn(3), 1+g.r.Intn(4)
+	if depth > 3 {
+		hi = 1 + g.r.Intn(2) // deep nests: at most 2 iterations per level (2^10 bodies), so every program runs in milliseconds
+	}
 	hdr := ""
 	switch g.r.Intn(3) {
 	case 0:
@@ -82,6 +92,9 @@ func (g *c05gen) loop(ints []string, depth int, inFunc bool, acc string) string 
 		hdr = fmt.Sprintf("for %s = %d", v, hi)
 	default:
 		hdr = fmt.Sprintf("for %s = %s:%s", v, g.intExpr(nil, 1), "("+g.intExpr(nil, 1)+" + 3)")
+		if depth > 3 {
+			hdr = fmt.Sprintf("for %s = %d:%d", v, lo, lo+hi)
+		}
 	}
 	in := append(append([]string{}, ints...), v)
 	var body []string
@@ -280,20 +293,24 @@ func TestVerifBoundedRegisters(t *testing.T) {
 		g := &c05gen{r: rand.New(rand.NewSource(int64(seed)))}
 		src := g.program()
 		evals += 2
-		a, b := c05Run(src, false), c05Run(src, true)
+		a, b := c05Run(src, false, 3*time.Second), c05Run(src, true, 3*time.Second)
+		if a != b && (strings.HasPrefix(a, "TIMEOUT") || strings.HasPrefix(b, "TIMEOUT")) {
+			// a deadline hit in one run only: decide with a deadline no machine load can explain
+			a, b = c05Run(src, false, 60*time.Second), c05Run(src, true, 60*time.Second)
+		}
 		if a != b {
 			fails++
 			if fails > 20 {
 				break // a broken tree: enough evidence
 			}
 			if fails <= 3 {
-				fmt.Printf("BOUNDED-FAIL registers on/off differ for generated program seed=%d: %q: with registers %q, without %q\n", seed, src, a, b)
+				fmt.Printf("BOUNDED-FAIL registers on/off differ for generated program seed=%d: %q: with registers %q, without %q\n", seed, src, c05Cut(a), c05Cut(b))
 			}
 		}
 	}
 	for _, w := range c05Witnesses {
 		evals += 2
-		a, b := c05Run(w.src, false), c05Run(w.src, true)
+		a, b := c05Run(w.src, false, 3*time.Second), c05Run(w.src, true, 3*time.Second)
 		if a != b {
 			fmt.Printf("BOUNDED-KNOWN %s %q: with registers %q, without %q\n", w.id, w.src, a, b)
 		}
